@@ -9,6 +9,7 @@ package checks
 // the input that was in flight.
 
 import (
+	"github.com/veraison/psatoken"
 	"bufio"
 	"encoding/binary"
 	"encoding/json"
@@ -67,6 +68,16 @@ func c06Worker() int {
 	if os.Getenv("VERIF_C06_NORLIMIT") == "" {
 		lim := syscall.Rlimit{Cur: c06Rlimit, Max: c06Rlimit}
 		_ = syscall.Setrlimit(syscall.RLIMIT_AS, &lim)
+	}
+	// the worker's profile register also holds profiles a user registered -
+	// among them two with very long (legitimate) URIs: what a decoder
+	// allocates is bounded in terms of the INPUT, whatever is registered
+	for i := 0; i < 2; i++ {
+		name := fmt.Sprintf("http://example.com/verif/%s/%d", strings.Repeat("long-profile-name/", 60), i)
+		if err := psatoken.RegisterProfile(dynProfile{name, []string{"ext-p2", "own-tag"}[i]}); err != nil {
+			fmt.Fprintln(os.Stderr, "VERIF-INFRA: cannot register a long-named profile:", err)
+			return 2
+		}
 	}
 	in := bufio.NewReaderSize(os.Stdin, 1<<17)
 	out := bufio.NewWriter(os.Stdout)
@@ -957,6 +968,25 @@ func bigOnes() []c06Placed {
 			if c, ok := m.BuildLiteral(); ok {
 				if js, err := json.Marshal(c); err == nil && len(js) <= c06MaxLen {
 					r = append(r, c06Placed{"json", fmt.Sprintf("%s/vsi=%d chars", p, n), js}, c06Placed{"enc-json", fmt.Sprintf("%s/vsi=%d chars", p, n), js})
+				}
+			}
+		}
+	}
+	// long PROFILE values that name nothing registered (4 KB, 60 KB; URIs and
+	// plain text), under key 265 / eat-profile / psa-profile
+	for _, n := range []int{4096, 60000} {
+		for _, prefix := range []string{"http://example.com/verif/", "PSA_IOT_PROFILE_", "http://arm.com/psa/2.0.0/"} {
+			name := prefix + strings.Repeat("x", n-len(prefix))
+			m := baseValid(P2, 1)
+			ps := append(bodyPairs(m), icbor.P(icbor.U(265), icbor.Tstr(name)))
+			tok := icbor.Encode(icbor.Map(ps...))
+			d := fmt.Sprintf("unregistered profile of %d chars (%s...)", n, prefix)
+			r = append(r, c06Placed{"cbor", d, tok}, c06Placed{"cose", "payload/" + d, icbor.Encode(c05Envelope(tok))})
+			for _, member := range []string{"eat-profile", "psa-profile", "x-profile"} {
+				o := modelJN(m)
+				o.keys, o.vals = append(o.keys, member), append(o.vals, jStr(name))
+				if doc := []byte(o.String()); len(doc) <= c06MaxLen {
+					r = append(r, c06Placed{"json", member + "/" + d, doc})
 				}
 			}
 		}
